@@ -199,6 +199,10 @@ def run(ck: Checker):
     from .. import arith_folds
     arith_folds.fold_adders(ck, 'C07.FOLD')
     ck.floor('C07.FOLD', 3)
+    ck.rule('C07.NUM', 'the bit counters (add_sum_n_bits in both bases, add_sum_n_bits_easy, add_sum_pow2_m1) and the weighted-sum schedulers instantiated as they stand (work lists, sorted queues) on a host circuit with gates of its own: the result decodes to the number of True operands / levels pairwise distinct and the weighted sum preserved, for every operand value, both endiannesses, requested basis respected')
+    from .. import num_folds
+    num_folds.fold_bit_counters(ck, 'C07.NUM')
+    ck.floor('C07.NUM', 5)
     worklist_rule(ck)
     transpose_rule(ck)
     n_ts = basis_rules(ck, [SUM], public)
